@@ -97,13 +97,16 @@ def nodupNat : List Nat → Bool
 def telemetryClean (sc : Scenario) (o : Obs) : Bool :=
   !o.finMet && !o.finHeld && (!sc.tracing || (o.log.count .flush == 1 && precedes isFlush isRet o.log))
 
+/-- `Start` returned an error (which one is not the property's business) -/
+def isError : Res → Bool
+  | .ok => false | .hang => false | .panic => false | _ => true
+
 /-- "the first failure aborts startup leaving nothing running" -/
 def failedStartOk (sc : Scenario) (o : Obs) (failing : Option HB) : Bool :=
   !o.log.any isReady &&
   match failing with
-  | some .panic => o.res == .panic || (o.res == .errStartup && !o.finApp && telemetryClean sc o)
-  | some _ => o.res == .errStartup && !o.finApp && telemetryClean sc o
-  | none => o.res == .errListen && !o.finApp && telemetryClean sc o
+  | some .panic => o.res == .panic || (isError o.res && !o.finApp && telemetryClean sc o)
+  | _ => isError o.res && !o.finApp && telemetryClean sc o
 
 /-! ### shutdown -/
 
